@@ -118,6 +118,7 @@ func c12sRun(cs c12sCase) [][2]string {
 }
 
 type c12sConc struct {
+	Swap    bool     `json:"swap,omitempty"`
 	Choices []int    `json:"choices"`
 	Sizes   []int    `json:"sizes"`
 	Trace   []string `json:"trace,omitempty"`
@@ -169,6 +170,86 @@ func c12sConcRun(prefix, prefixN []int) (*sched.Exec, string) {
 	return x, res.get()
 }
 
+// yieldingSpecter: an updatable specification whose every read is a scheduling point (the swap may land anywhere).
+type yieldingSpecter struct {
+	*core.UpdatableSpec
+}
+
+func (y *yieldingSpecter) Spec() *core.Spec {
+	sched.Yield("spec-read")
+	return y.UpdatableSpec.Spec()
+}
+
+// c12Parked: two versions with different node sets; the machine is parked at a node only version 1 has.
+func c12Parked(version int) *core.Spec {
+	s := c12Spec(version)
+	if version == 1 {
+		s.Nodes["waiting"] = &core.Node{Branches: &core.Branches{Type: "message", Branches: []*core.Branch{{Pattern: map[string]interface{}{"ping": "?n"}, Target: "a"}}}}
+	} else {
+		s.Nodes["resting"] = &core.Node{Branches: &core.Branches{Type: "message", Branches: []*core.Branch{{Pattern: map[string]interface{}{"ping": "?n"}, Target: "a"}}}}
+	}
+	return s
+}
+
+// c12sSwapRun: a crew machine whose specification is updatable; one thread delivers a message to it, another swaps
+// the version.  solo > 0: no swapper, the machine runs under that version alone.
+func c12sSwapRun(prefix, prefixN []int, solo int) (*sched.Exec, string) {
+	ctx := context.Background()
+	v1, v2 := c12Parked(1), c12Parked(2)
+	for _, v := range []*core.Spec{v1, v2} {
+		if err := v.Compile(ctx, Interpreters, true); err != nil {
+			x := sched.NewExec(prefix, prefixN)
+			x.Finish()
+			return x, "<harness> " + err.Error()
+		}
+	}
+	c, err := newTestCrew()
+	if err != nil {
+		x := sched.NewExec(prefix, prefixN)
+		x.Finish()
+		return x, "<harness> " + err.Error()
+	}
+	first := v1
+	if solo == 2 {
+		first = v2
+	}
+	us := &yieldingSpecter{core.NewUpdatableSpec(first)}
+	c.Machines["m"] = &crew.Machine{Id: "m", Specter: us, State: &core.State{NodeName: "waiting", Bs: map[string]interface{}{}}}
+	res := &concRes{}
+	x := sched.NewExec(prefix, prefixN)
+	x.Go("walker", func() {
+		r, err := c.ProcessMsg(ctx, map[string]interface{}{"to": "m", "ping": 1.0})
+		s := ""
+		if err != nil {
+			s = "error: " + err.Error()
+		} else {
+			for _, batch := range r.Emitted {
+				for _, e := range batch {
+					if m, ok := e.(map[string]interface{}); ok {
+						s += fmt.Sprintf("%v%v ", m["node"], m["v"])
+					}
+				}
+			}
+			if mm := c.Machines["m"]; mm != nil && mm.State != nil {
+				s += "@" + mm.State.NodeName
+				if e, ok := mm.State.Bs["error"].(string); ok {
+					s += " error=" + e
+				}
+			}
+		}
+		res.set(s)
+	})
+	if solo == 0 {
+		x.Go("swapper", func() {
+			sched.Yield("before-swap")
+			us.SetSpec(v2)
+		})
+	}
+	x.Run()
+	x.Finish()
+	return x, res.get()
+}
+
 type concRes struct{ s string }
 
 //go:norace
@@ -189,6 +270,15 @@ func C12sio(c *vh.Ctx) {
 			return
 		}
 		var cc c12sConc
+		if c.LoadReplay(&cc) == nil && cc.Swap {
+			c.Eval()
+			_, alone1 := c12sSwapRun(nil, nil, 1)
+			_, alone2 := c12sSwapRun(nil, nil, 2)
+			if _, got := c12sSwapRun(cc.Choices, cc.Sizes, 0); got != alone1 && got != alone2 {
+				c.Violation("C12/sio/delivery-sees-a-mix-of-versions", "the outcome is ["+got+"]; alone: ["+alone1+"] / ["+alone2+"]", cc)
+			}
+			return
+		}
 		if c.LoadReplay(&cc) == nil {
 			c.Eval()
 			if _, got := c12sConcRun(cc.Choices, cc.Sizes); got != "a1 b1 c1 " {
@@ -197,7 +287,7 @@ func C12sio(c *vh.Ctx) {
 		}
 		return
 	}
-	c.Rule("(sio host) a Go host keeps one SpecSource object (an inline specification whose three action nodes emit their name and the version) and hands it to SetMachine for two machines; every sequence of up to the bound over {set m1, set m2, edit the object in place to version 2 / 3, put a new specification of version 2 / 3 into it, ping m1, ping m2}: a pinged machine's walk must emit exactly its three nodes under the version the object had when the machine was last set - never another version, never a mix. Concurrent part: two crews share the object; one processes a message for its machine while the other is given the object for two new machines - every schedule within the deviation bound, the walk must emit version 1 throughout; race pass: ThreadSanitizer silent.")
+	c.Rule("(sio host) a Go host keeps one SpecSource object (an inline specification whose three action nodes emit their name and the version) and hands it to SetMachine for two machines; every sequence of up to the bound over {set m1, set m2, edit the object in place to version 2 / 3, put a new specification of version 2 / 3 into it, ping m1, ping m2}: a pinged machine's walk must emit exactly its three nodes under the version the object had when the machine was last set - never another version, never a mix. Concurrent part: two crews share the object; one processes a message for its machine while the other is given the object for two new machines - every schedule within the deviation bound, the walk must emit version 1 throughout; race pass: ThreadSanitizer silent. Also a crew machine whose specification is an UpdatableSpec (every read of it a scheduling point), parked at a node that only version 1 has, while another thread swaps in version 2: the delivery's outcome must be that of version 1 alone or of version 2 alone.")
 	if !race {
 		alphabet := []string{"set:m1", "set:m2", "edit:2", "edit:3", "put:2", "put:3", "ping:m1", "ping:m2"}
 		maxLen := c.Pick(4, 5)
@@ -268,6 +358,37 @@ func C12sio(c *vh.Ctx) {
 				c.Violation("C12/sio/concurrent-walk-differs", "while another crew of the same host was given the shared specification object, the walk emitted ["+got+"] instead of [a1 b1 c1]", c12sConc{Choices: cs, Sizes: ns, Trace: sched.FormatTrace(x.Trace)})
 			}
 		})
+	// an updatable specification in a crew: a delivery sees one version
+	{
+		_, alone1 := c12sSwapRun(nil, nil, 1)
+		_, alone2 := c12sSwapRun(nil, nil, 2)
+		rep2 := false
+		st2 := sched.Explore(bound+1, 20000, func(uint64) bool { return true }, true,
+			func(p, pn []int) *sched.Exec {
+				x, got := c12sSwapRun(p, pn, 0)
+				x.UserData = got
+				return x
+			},
+			func(x *sched.Exec, devs int) {
+				c.Eval()
+				got := x.UserData.(string)
+				c.Outcome("swap", got)
+				if strings.HasPrefix(got, "<harness>") {
+					c.NotExhaustive("C12sio: " + got)
+					return
+				}
+				if got != alone1 && got != alone2 && !rep2 {
+					rep2 = true
+					cs, ns := sched.Choices(x.Trace)
+					c.Violation("C12/sio/delivery-sees-a-mix-of-versions", fmt.Sprintf("a machine parked at a node only version 1 has, its specification swapped to version 2 during the delivery: the outcome is [%s]; under version 1 alone it is [%s], under version 2 alone [%s]", got, alone1, alone2), c12sConc{Choices: cs, Sizes: ns, Trace: sched.FormatTrace(x.Trace), Swap: true})
+				}
+			})
+		c.R.Traces += int64(st2.Schedules)
+		c.R.Transitions += int64(st2.Transitions)
+		if st2.Nondet > 0 || st2.Stuck > 0 || st2.Capped {
+			c.NotExhaustive(fmt.Sprintf("exploration gaps (swap): %d nondeterministic subtrees, %d stuck executions, capped=%v", st2.Nondet, st2.Stuck, st2.Capped))
+		}
+	}
 	c.R.Traces += int64(st.Schedules)
 	c.R.Transitions += int64(st.Transitions)
 	c.Count("nondeterministic_subtrees", int64(st.Nondet))
